@@ -134,7 +134,7 @@ def hashIncrFloat (db : DB) (k f : Bytes) (d : Dyadic) (now : Int) : Res :=
   | .invalid => .err .valueType db
   | .unknown => .err .outOfDomain db
   | .val x =>
-    match formatFloatDec (x + d) with
+    match formatFloatDec (f64add x d) with
     | none =>
       (match hashSetKey db k now with
        | .error e => .err e db
@@ -142,7 +142,7 @@ def hashIncrFloat (db : DB) (k f : Bytes) (d : Dyadic) (now : Int) : Res :=
     | some txt =>
       match hashSetTx db k f txt now with
       | .error e => .err e db
-      | .ok dd => .ok (.score (.fin (x + d))) dd
+      | .ok dd => .ok (.score (.fin (f64add x d))) dd
 
 /-- `sqlScan`: no `order by`; the planner walks the `(kid, field)` index -/
 def hashScan (db : DB) (k : Bytes) (cursor : Int) (pat : Bytes) (count : Int) (now : Int) : Res :=
